@@ -41,7 +41,7 @@ def run(rep, ctx):
     rep.rule("C10.R9", "the element-wise branch of UnitDatabase.Convert converts every element by the same route as a single number, for every container kind (shared with C01.R4 / C02.R1)")
     try:
         borrow(rep, c01.r4_routes, ctx, "C01.R4", "C10.R9", keep=lambda o: "UnitDatabase.Convert" in o.key)
-        borrow(rep, c02.r1_agreement, ctx, "C02.R1", "C10.R9", keep=lambda o: o.key.startswith("Convert:"))
+        borrow(rep, c02.r1_agreement, ctx, "C02.R1", "C10.R9", keep=lambda o: o.key.startswith("Convert:") or o.key == "lookup-flags-agree")
     except AnalysisError as e:
         rep.error("C10.R9", str(e))
     rep.not_decided += [
